@@ -21,7 +21,8 @@ ValueMaps == {[f \in {} |-> Inner(TRUE, [q \in {} |-> V0])]}
              \cup {[f \in {F1, F2} |-> IF f = F1 THEN i ELSE j] : i \in Inners, j \in Inners}
 Kinds == {"put", "delete", "append", "increment"}
 Tss == {[latest |-> TRUE, bytes |-> Latest], [latest |-> FALSE, bytes |-> <<0, 0, 0, 0, 0, 0, 0, 5>>],
-        [latest |-> FALSE, bytes |-> <<255, 255, 255, 255, 255, 255, 255, 254>>]}
+        [latest |-> FALSE, bytes |-> <<255, 255, 255, 255, 255, 255, 255, 254>>],
+        [latest |-> FALSE, bytes |-> <<0, 0, 0, 0, 0, 0, 0, 0>>]}     \* an explicit timestamp of 0 is a timestamp like any other
 Mutations == {m \in [kind : Kinds, values : ValueMaps, ts : Tss, oneVersion : BOOLEAN] :
                  /\ (m.oneVersion => m.kind = "delete")
                  /\ ~(m.oneVersion /\ DOMAIN m.values = {})}    \* rejected by NewDel
